@@ -43,7 +43,7 @@ RULE = ("YAML-serialisable configurations: 1..4 groups, num in {0,1,2,3,7,40}, a
         "with probability 0.4 a revision also has another seed and num; supplied as grouped / flat mapping, grouped / "
         "flat YAML stream or YAML file; each release against `python -m ladim_plugins.release` in a process of its own "
         "and against a pristine import of the module. Attribute names with a meaning at another level of the document "
-        "(16 quick / 260 thorough configurations of 1..3 small groups, half of them one group; plus, with probability 0.2 "
+        "(24 quick / 260 thorough configurations of 1..3 small groups, half of them one group; plus, with probability 0.2 "
         "per group, one such attribute with a constant value in the configurations of the main loop): in 1..all groups "
         "1..3 of the names `seed`, `columns`, `groups` (keys of the top-level mapping) and sometimes a key name of the "
         "distribution / location mappings (distribution, mean, min, max, center, offset, knots), at group level or "
@@ -703,7 +703,7 @@ def judge_named_columns(ctx, table, groups, expects, site, what, cs):
 def attr_name_checks(ctx, mk, yaml, tmp, cli):
     site = SITE + "::load_config"
     n_cli = 0
-    for c in range(ctx.n(16, 260)):
+    for c in range(ctx.n(24, 260)):
         ng = ctx.rng.choice([1, 1, 1, 2, 2, 3])
         groups = []
         for g in range(ng):
@@ -758,7 +758,7 @@ def attr_name_checks(ctx, mk, yaml, tmp, cli):
         if gj:
             cs["geojson_files"] = gj
         ctx.case(key=("attr_name", repr(conf)), nontrivial=True)
-        ctx.branch("attr_name"); ctx.branch("attr_name.groups.%d" % ng)
+        ctx.branch("attr_name"); ctx.branch("attr_name.ngroups.%d" % ng)
         ctx.branch("attr_name.columns" if cols is not None else "attr_name.default_columns")
         ref, err = attempt(lambda: mk.make_release(mapping(True)))
         ctx.oracle(err is None, "C18.attr_name.valid_rejected", site,
